@@ -1,6 +1,7 @@
 import VarmqVerif.Proofs.Pool
 import VarmqVerif.Proofs.Res
 import VarmqVerif.Proofs.Config
+import VarmqVerif.Proofs.Trim
 /-!
   C18 — pool size tracks configuration; idle workers are trimmed; Stop leaks nothing (partial).
   Proved: per node exactly one goroutine will keep serving it while it is idle/held/in flight and
@@ -26,5 +27,24 @@ theorem busy_le_limit {s : Res.State} (h : Res.Reach s) : s.nExec + s.handed + s
 
 theorem min_idle_ge_one (conc : BitVec 32) (pct : BitVec 8) : 1 ≤ (Config.numMinIdleWorkers conc pct).toNat :=
   Config.min_idle_ge_one conc pct
+
+/-- "keeps at least one idle worker while running" (no idle expiry; model `Trim`: take / create / look-then-keep-or-
+    retire / PopBackIfLonger / stopAndRemoveAllWorkers, any number of workers and tuners, any interleaving): a running
+    pool in which no worker is out of the idle list has an idle worker -/
+theorem idle_worker_kept {s : Trim.State} (h : Trim.Reach false s) (hr : s.running = true) (hq : ∀ g, s.busy g = false) :
+    1 ≤ s.idle := Trim.idle_worker_kept h hr hq
+
+/-- … and at every moment it has a worker, idle or out with a job -/
+theorem never_empty_handed {s : Trim.State} (h : Trim.Reach false s) (hr : s.running = true) :
+    1 ≤ s.idle ∨ ∃ g, s.busy g = true := Trim.never_empty_handed h hr
+
+/-- TunePool's one-step shrink never takes the idle list below the minimum it was given -/
+theorem tune_keeps_minimum {s s' : Trim.State} {m : Nat} (h : Trim.step false s (.tune m) = .ok s') :
+    m ≤ s'.idle ∧ 1 ≤ s'.idle := Trim.tune_keeps_minimum h
+
+/-- the defect repaired by c42df87, as a theorem: with the two-step shrink (look, then pop) of the earlier code a
+    running pool with nobody out and no idle worker is reachable -/
+theorem old_shrink_can_empty_the_pool :
+    ∃ s, Trim.Reach true s ∧ s.running = true ∧ (∀ g, s.busy g = false) ∧ s.idle = 0 := Trim.old_shrink_can_empty_the_pool
 
 end VarmqVerif.Props.C18
